@@ -25,18 +25,21 @@ LAYOUTS = {
     "twice": [("fix", I8), ("cand", b"FANS"), ("fix", bytes(range(10))), ("cand", b"FANS"), ("fix", bytes(range(10)))],
     "truncated": [("fix", I8), ("cand", b"POWR"), ("cand", b"INFO"), ("fix", b"\x00\x10")],
     "three": [("fix", I8), ("cand", b"POWR"), ("fix", bytes(range(9))), ("hdr", b"IICM"), ("fix", bytes(range(5))), ("cand", b"ERRL")],
+    "tiny": [("symlen", 7)],
+    "odd": [("fix", I8 + b"\x00\x07\x01"), ("cand", b"FANS"), ("fix", bytes(range(13))), ("hdr", b"INFO"), ("fix", bytes(range(3)))],
 }
 HARNESSES = [
-    {"fn": "h_partition", "cases": sorted(LAYOUTS), "quick_cases": ["at0", "two", "adjacent", "truncated", "none"],
+    {"fn": "h_partition", "cases": sorted(LAYOUTS), "quick_cases": ["at0", "two", "adjacent", "truncated", "none", "three", "tiny", "odd"],
      "timeout": {"quick": 150, "thorough": 600}},
-    {"fn": "h_file", "cases": ["f%d:L%d:u%d:c%d" % (f, L, u, c) for f in (0, 1) for L in (23, 37, 40, 180) for u in (0, 1) for c in (0, 1)] + ["empty"],
-     "quick_cases": ["f0:L40:u1:c0", "f1:L37:u0:c1", "f0:L180:u1:c1", "f1:L23:u1:c0", "empty"],
+    {"fn": "h_file", "cases": ["f%d:L%d:u%d:c%d" % (f, L, u, c) for f in (0, 1) for L in (23, 37, 40, 180) for u in (0, 1) for c in (0, 1)] + ["empty", "f0:L40:u1:c0:pre", "f1:L37:u0:c1:pre", "f0:L5:u0:c1", "f1:L3:u1:c0"],
+     "quick_cases": ["f0:L40:u1:c0:pre", "f1:L37:u0:c1:pre", "f1:L3:u1:c0", "f0:L40:u1:c0", "f1:L37:u0:c1", "f0:L180:u1:c1", "f1:L23:u1:c0", "empty"],
      "timeout": {"quick": 150, "thorough": 400}},
 ]
-BOUNDS = {"layouts": "9 catalogue layouts (no header, header at offset 0, two buffers, adjacent headers, all six names shuffled, a "
+BOUNDS = {"layouts": "11 catalogue layouts (1..7 symbolic bytes, headers at odd offsets, no header, header at offset 0, two buffers, adjacent headers, all six names shuffled, a "
                      "name without the 4-byte start inside ILOG data, the same name twice, truncated buffers, three buffers); the 4 "
                      "start bytes of up to two candidate headers are symbolic (so each may or may not be a header)",
-          "files": "dump files of 23, 37, 40, 180 bytes in both hex formats, either digit case, cut / padded last line, the last byte symbolic"}
+          "files": "dump files of 3, 5, 23, 37, 40, 180 bytes in both hex formats, either digit case, cut / padded last line, the last byte "
+                   "symbolic; optionally preceded by comment and blank lines"}
 ASSUMPTIONS = ["the stand-alone decoders are replaced by recorders that capture the exact slice they are handed (E6); C14 / C15 cover them",
                "'recognised header' = first occurrence of start bytes + name for each of the six names (DESIGN.md 9)",
                "open() of the dump file replaced by an in-memory file"]
@@ -48,6 +51,11 @@ def build(layout):
     for kind, val in LAYOUTS[layout]:
         if kind == "fix":
             parts.append(val)
+        elif kind == "symlen":          # 1..val symbolic bytes (shorter than one ILOG entry)
+            n = sym_int("n", 1, val)
+            for cand in range(1, val + 1):
+                if n == cand:
+                    parts.append(sym_bytes("t", cand))
         elif kind == "hdr":
             parts.append(START + val)
         else:
@@ -135,6 +143,9 @@ def h_file() -> bool:
     w = sym_bytes("w", 1)
     data = mkbytes(base[:p], w)
     text = [ln + "\n" for ln in _render(dump.HEX_DUMP_LINE_FORMATS[f], data, upper, cut)]
+    if CASE.endswith(":pre"):
+        # comment / blank lines before the data (they are not data lines in either format)
+        text = (["\n", "# drawer dump, no address column here\n"] if f == 0 else ["# taken at 12:30: drawer 7\n", "\n"]) + text
     try:
         rec_raw, lines_raw = run(data)
         rec, lines = [], None
